@@ -1,2 +1,3 @@
 import Proofs.C17
 import Proofs.C08
+import Proofs.C04
